@@ -224,6 +224,7 @@ class Resources:
 
         """
         data = self.__dict__.copy()
+        data["extra_args"] = dict(data["extra_args"])  # never write into the receiver's dict
         for key, value in kwargs.items():
             if key == "extra_args":
                 data["extra_args"] = {**data["extra_args"], **value}
